@@ -1,5 +1,6 @@
 import GtirbVerif.Lemmas.IRFunc
 import GtirbVerif.Lemmas.IRMirror
+import GtirbVerif.Lemmas.IREntries
 import GtirbVerif.Spec.FuncCheck
 
 /-!
@@ -20,7 +21,9 @@ import GtirbVerif.Spec.FuncCheck
   removed block is in no function afterwards; a function that lost its last block (and entry)
   disappears from all three tables; and the mirror relation (together with "the cache speaks of
   blocks of the table only") is an invariant of `insert`, of `delete`, of the whole loop over the
-  requests of a block and of `apply()`'s loop over all blocks - for every request list.
+  requests of a block and of `apply()`'s loop over all blocks - for every request list; so after
+  the whole loop no block is listed by two functions, and every entry of a function is still one
+  of its blocks (`EntSub`, Lemmas/IREntries.lean).
 -/
 namespace GtirbVerif.Props.C06
 open GtirbVerif GtirbVerif.IR
@@ -92,6 +95,33 @@ theorem apply_keeps_cache_in_step (rs : List BlockMods) (ir ir' : IR)
     (h : ir.applyAll rs = .ok ir') (hI : IdsBelow ir) (hok : ∀ r ∈ rs, ReqOk ir r)
     (hnd : (rs.map (ivOf ir)).Nodup) (hnew : NewBlocksAll ir rs) (hm : MInv ir) : Mirror ir' :=
   (applyAll_minv rs ir ir' h hI hok hnd hnew hm).1
+
+/-- **no block is in two functions**: when the cache mirrors the table, a block listed under two
+functions would have two cache entries - there is one -/
+theorem mirror_excludes_two_functions (ir : IR) (h : Mirror ir) (b f g : Nat)
+    (hf : ir.inFunc b f) (hg : ir.inFunc b g) : f = g := by
+  have h1 := (h b f).mpr hf
+  have h2 := (h b g).mpr hg
+  rw [h1] at h2
+  injection h2
+
+/-- … so after `apply()`'s whole loop, whatever the requests, no block is listed by two functions -/
+theorem no_block_is_in_two_functions_after_apply (rs : List BlockMods) (ir ir' : IR)
+    (h : ir.applyAll rs = .ok ir') (hI : IdsBelow ir) (hok : ∀ r ∈ rs, ReqOk ir r)
+    (hnd : (rs.map (ivOf ir)).Nodup) (hnew : NewBlocksAll ir rs) (hm : MInv ir) (b f g : Nat)
+    (hf : ir'.inFunc b f) (hg : ir'.inFunc b g) : f = g :=
+  mirror_excludes_two_functions ir' (apply_keeps_cache_in_step rs ir ir' h hI hok hnd hnew hm) b f g hf hg
+
+/-- **entries are a subset of blocks, after `apply()`'s whole loop**: if every block that
+`functionEntries` lists for a function is listed by `functionBlocks` for it before the rewrite, the
+same holds afterwards - whatever the requests (Lemmas/IREntries.lean: only
+`remove_function_block_aux`, which drops a block from both tables, and the promotion of the next
+block of the same function write the entry table) -/
+theorem entries_are_blocks_after_apply (rs : List BlockMods) (ir ir' : IR)
+    (h : ir.applyAll rs = .ok ir') (hI : IdsBelow ir) (hok : ∀ r ∈ rs, ReqOk ir r)
+    (hnd : (rs.map (ivOf ir)).Nodup) (hnew : NewBlocksAll ir rs) (hm : MInv ir) (he : EntSub ir) : EntSub ir' := by
+  obtain ⟨m1, e1⟩ := applyAll_entc rs ir ir' h hI hok hnd hnew hm (he.c hm.1)
+  exact e1.sub m1.1
 
 /-! ### non-vacuity -/
 private def demo : IR := { fbb := [(1, 7), (2, 7)], aux := { funcBlocks := [(7, [1, 2])], funcEntries := [(7, [1])], funcNames := [(7, 99)] } }
